@@ -185,12 +185,9 @@ Qed.
 Lemma ranged_types_are_the_signed_widths :
   slookup "ByteType" ranged_types = Some (- 2 ^ 7, 2 ^ 7 - 1) /\
   slookup "ShortType" ranged_types = Some (- 2 ^ 15, 2 ^ 15 - 1) /\
-  slookup "IntegerType" ranged_types = Some (- 2 ^ 31, 2 ^ 31 - 1).
+  slookup "IntegerType" ranged_types = Some (- 2 ^ 31, 2 ^ 31 - 1) /\
+  slookup "LongType" ranged_types = Some (- 2 ^ 63, 2 ^ 63 - 1).
 Proof. repeat split. Qed.
-
-(* LongType has no range check today *)
-Lemma long_accepts_any_int n z : verify (TAtom ALong) n (PInt z) = Ok tt.
-Proof. reflexivity. Qed.
 
 (* ---------- propagation of a rejection from a position to the whole value *)
 Lemma each_rejects {A} (f : A -> res unit) l x : In x l -> rejected (f x) -> rejected (each f l).
@@ -347,26 +344,27 @@ Proof.
   - eapply verify_row_field_propagates; eauto.
 Qed.
 
-Lemma out_of_range_partial : forall a n z, In a [AByte; AShort; AInteger] ->
-    (z < - 2 ^ (match a with AByte => 7 | AShort => 15 | AInteger => 31 | _ => 63 end) \/
-     2 ^ (match a with AByte => 7 | AShort => 15 | AInteger => 31 | _ => 63 end) - 1 < z) ->
-    verify (TAtom a) n (PInt z) <> Ok tt.
+Definition int_bits (a : atomic) : Z :=
+  match a with AByte => 7 | AShort => 15 | AInteger => 31 | _ => 63 end.
+
+(* every integral type rejects the integers outside its two's-complement range *)
+Lemma out_of_range_all : forall a n z, In a [AByte; AShort; AInteger; ALong] ->
+    (z < - 2 ^ int_bits a \/ 2 ^ int_bits a - 1 < z) -> verify (TAtom a) n (PInt z) = Err EValue.
 Proof.
   intros a n z Ha Hz.
-  destruct Ha as [<-|[<-|[<-|[]]]];
-    (erewrite verify_out_of_range; [discriminate|reflexivity|exact Hz]).
+  destruct Ha as [<-|[<-|[<-|[<-|[]]]]];
+    (erewrite verify_out_of_range; [reflexivity|reflexivity|exact Hz]).
 Qed.
 
-Lemma out_of_range_refuted :
-  ~ (forall a n z, In a [AByte; AShort; AInteger; ALong] ->
-      (z < - 2 ^ (match a with AByte => 7 | AShort => 15 | AInteger => 31 | _ => 63 end) \/
-       2 ^ (match a with AByte => 7 | AShort => 15 | AInteger => 31 | _ => 63 end) - 1 < z) ->
-      verify (TAtom a) n (PInt z) <> Ok tt).
+(* ... and accepts the integers inside it *)
+Lemma in_range_all : forall a n z, In a [AByte; AShort; AInteger; ALong] ->
+    - 2 ^ int_bits a <= z <= 2 ^ int_bits a - 1 -> verify (TAtom a) n (PInt z) = Ok tt.
 Proof.
-  intro H. apply (H ALong true (2 ^ 63)).
-  - right; right; right; now left.
-  - right. reflexivity.
-  - reflexivity.
+  intros a n z Ha Hz.
+  assert (E : forall lo hi, lo <= z <= hi -> (z <? lo) || (hi <? z) = false).
+  { intros lo hi H. apply orb_false_iff. split; apply Z.ltb_ge; lia. }
+  destruct Ha as [<-|[<-|[<-|[<-|[]]]]]; rewrite verify_atom_like by (exact I || reflexivity);
+    cbn; cbn in Hz; rewrite E by lia; reflexivity.
 Qed.
 
 (* ---------- the regenerated Python-type tables are the documented ones *)
